@@ -186,6 +186,8 @@ def task(t):
     seed, idx, k, traces_dir, max_files = t
     bx = common.worker_box()
     prog, rnd = program_for(seed, idx)
+    if "use_core" in prog.features:
+        bx.use_real_core()
     base_variant = gen.base_variant(prog)
     base_files = gen.render(prog, base_variant)
     base = build_and_run(bx, base_files)
@@ -275,6 +277,8 @@ def minimise(seed, idx, div, budget=120):
     returns a replay document"""
     bx = common.worker_box()
     prog, _ = program_for(seed, idx)
+    if "use_core" in prog.features:
+        bx.use_real_core()
     order = [list(f) for f in div["variant"]["order"]]
     cls = div["class"]
     trials = [0]
@@ -359,6 +363,8 @@ def replay(path):
     with open(path) as f:
         doc = json.load(f)
     bx = common.worker_box()
+    if any('#mod("core")' in t for t in doc["base_files"].values()):
+        bx.use_real_core()
     b = build_and_run(bx, doc["base_files"], world=doc.get("world"))
     v = build_and_run(bx, doc["variant_files"], world=doc.get("world"))
     d = compare(b, v) if b["accepted"] else None
